@@ -26,6 +26,52 @@ def gen_histories(seed, tier, pid):
         st = r.choice(bc.STRATS)
         steps += ["s:%s:0" % st, "s:%s:0" % st, "s:%s:0" % st]
         hs.append(("first", ";".join(steps)))
+    if pid == "C11":
+        # (the quantifier's "equal sizes with different contents and equal mtimes") first syncs of trees whose files carry time
+        # stamps of the writer's choosing (cp -p, rsync -t, archives): many equal pairs; then ordinary edits and syncs
+        n3 = 150 if tier == "quick" else 2500
+        for _ in range(n3):
+            ws = []
+            for pid_ in bc.IDS + [16]:
+                for sd in "SD":
+                    if r.random() < 0.7:
+                        ws.append((sd, pid_, r.choice([2, 3, 3, 5]), r.randrange(1, 250)))
+            k = max(1, len(ws))
+            steps = ["w:%s:%d:%d:%d:%d" % (sd, p_, sz, c, r.randrange(1, min(k, 3) + 1)) for sd, p_, sz, c in ws]
+            st = r.choice(bc.STRATS)
+            steps += ["s:%s:0" % st, "s:%s:0" % st]
+            if r.random() < 0.6:
+                steps.append(bc.rand_history(r, 5))
+            hs.append(("stamped", ";".join(steps)))
+        # (the quantifier's "all prior sync states") the database loses the row of one side at some paths -- a database written
+        # by an interrupted run or by an earlier version of sy -- before further edits and syncs
+        n4 = 150 if tier == "quick" else 2500
+        for _ in range(n4):
+            steps = []
+            for pid_ in bc.IDS:
+                for sd in "SD":
+                    if r.random() < 0.6:
+                        steps.append("e:%s:%d:c:%d:%d" % (sd, pid_, r.choice([1, 2, 3, 5]), r.randrange(1, 250)))
+            steps.append("s:%s:0" % r.choice(bc.STRATS))
+            for pid_ in bc.IDS:
+                if r.random() < 0.7:
+                    steps.append("x:%s:%d" % (r.choice("SD"), pid_))
+            for _e in range(r.randrange(0, 4)):
+                steps.append("e:%s:%d:%s:%d:%d" % (r.choice("SD"), r.choice(bc.IDS), r.choice("cccdt"), r.choice([1, 2, 3, 5]), r.randrange(1, 250)))
+            st = r.choice(bc.STRATS)
+            steps += ["s:%s:0" % st, "s:%s:0" % st]
+            hs.append(("row-loss", ";".join(steps)))
+    # several sync phases on one or two paths, deletions frequent: delete on both sides, re-create on one, ...
+    n5 = 300 if tier == "quick" else 5000
+    for _ in range(n5):
+        steps = []
+        ids = [4] if r.random() < 0.6 else [4, 8]
+        for ph in range(r.randrange(3, 6)):
+            for _e in range(r.randrange(1, 4)):
+                kind = r.choice("ccddt")
+                steps.append("e:%s:%d:%s:%d:%d" % (r.choice("SD"), r.choice(ids), kind, r.choice([3, 3, 5]), r.choice([7, 9, 11, 13])))
+            steps.append("s:%s:0" % r.choice(bc.STRATS))
+        hs.append(("phased", ";".join(steps)))
     # longer histories with prior sync states
     n2 = 250 if tier == "quick" else 4000
     for _ in range(n2):
